@@ -54,6 +54,8 @@ Proof.
 Qed.
 
 Section EndReq.
+  Variable prog : fname -> stmt.      (* any program: the hand-written skeletons or the regenerated ones *)
+  Variable pparam : fname -> stmt.
   Variable E : env.
   Notation EX := (exec prog pparam E).
 
